@@ -27,7 +27,49 @@ fn histories(seed: u64, n: usize) -> Vec<Vec<Op>> {
     c.w_mine = 5;
     c.max_mine = 6;
     let s = history_strategy(c);
-    (0..n).map(|_| s.new_tree(&mut runner).expect("tree").current()).collect()
+    let mut out: Vec<Vec<Op>> = (0..n).map(|_| s.new_tree(&mut runner).expect("tree").current()).collect();
+    // structured family: a commit, then state-changing blocks that exist only in memory, then a shallow reorg
+    // whose target lies at or above the durable height (the reorg itself is what writes those blocks' rows)
+    let mut pre = HistCfg::general();
+    pre.min_ops = 3;
+    pre.max_ops = 8;
+    pre.w_commit = 4;
+    pre.w_reorg = 1;
+    pre.w_clear = 0;
+    pre.w_reopen = 0;
+    pre.max_mine = 4;
+    let mut mid = HistCfg::general().no_persistence_events();
+    mid.min_ops = 4;
+    mid.max_ops = 9;
+    mid.w_mine = 3;
+    mid.max_mine = 2;
+    let (sp, sm) = (history_strategy(pre), history_strategy(mid));
+    for k in 0..(n / 3).max(2) {
+        let mut h = sp.new_tree(&mut runner).expect("tree").current();
+        h.push(Op::Commit);
+        let m = sm.new_tree(&mut runner).expect("tree").current();
+        h.extend(m.into_iter().skip(1)); // without its Init
+        h.push(Op::Mine { n: 1 + (k % 2) as u8, ts: 77 });
+        h.push(Op::Reorg { depth: 1 + (k % 2) as u8, keep_soft: false });
+        h.push(Op::Commit);
+        out.push(h);
+    }
+    // structured family: the same above height 11, where a key created in an orphaned block is left with nothing
+    // but an entry older than the window (commit then drops its history row): committed blocks, reorg, repair
+    for k in 0..(n / 4).max(2) {
+        let mut h = sp.new_tree(&mut runner).expect("tree").current();
+        h.push(Op::Mine { n: 11, ts: 78 });
+        let m = sm.new_tree(&mut runner).expect("tree").current();
+        h.extend(m.into_iter().skip(1));
+        h.push(Op::Mine { n: 1, ts: 79 });
+        if k % 2 == 0 {
+            h.push(Op::Commit);
+        }
+        h.push(Op::Reorg { depth: 1 + (k % 3) as u8, keep_soft: false });
+        h.push(Op::Commit);
+        out.push(h);
+    }
+    out
 }
 
 #[derive(Clone, Debug)]
@@ -230,8 +272,25 @@ fn crash_at_inner(ops: &[Op], p: &Point, idx: u64, external: bool) -> CheckResul
     }
     targets.dedup();
     let mut last_ref: Option<Instance> = None;
+    let debug = std::env::var("VERIF_C04_DEBUG").ok();
+    let dbg_dump = |inst: &mut Instance, tag: &str| {
+        if let Some(needle) = &debug {
+            inst.close();
+            if let Ok(rows) = super::c10::dump(&inst.dir) {
+                for (t, k, v) in rows {
+                    let kh = hex::encode(&k);
+                    if t.contains("account_memory") && kh.contains(needle.as_str()) {
+                        eprintln!("DBG {} {} {} = {}", tag, t, kh, hex::encode(&v));
+                    }
+                }
+            }
+            inst.reopen().expect("reopen after dump");
+        }
+    };
+    dbg_dump(&mut r.inst, "after-crash");
     for d in targets {
         let rr = r.inst.call("brc20_reorg", json!([d]));
+        dbg_dump(&mut r.inst, "after-recovery-reorg");
         if !rr.is_ok() {
             fail!("C04/reorg-to-durable-height-refused-after-crash", "{}: reorg({}) (durable up to {}, reopened height {}, highest ever {}): {:?}", what, d, c, reopened_height, hef, rr);
         }
@@ -311,6 +370,17 @@ impl Property for C04 {
             kind: d["kind"].as_u64().unwrap_or(0) as u8,
             first_or_last: d["first_or_last"].as_bool().unwrap_or(false),
         };
-        crash_at(&ops, &p, d["index"].as_u64().unwrap_or(0), false)
+        // Which key a write site belongs to depends on the per-map hash order of the module's caches, so one
+        // run of a saved point is one sample: the whole operation the point lies in is enumerated again
+        // (about a hundred sites of that operation, evenly spread and including the saved one), the saved site first.
+        let idx = d["index"].as_u64().unwrap_or(0);
+        let mut last = crash_at(&ops, &p, idx, false)?;
+        let plan = dry_run(&ops);
+        let in_op: Vec<&Point> = plan.points.iter().filter(|q| q.op_idx == p.op_idx).collect();
+        let stride = (in_op.len() as u64).div_ceil(100).max(1);
+        for q in in_op.iter().filter(|q| q.site % stride == p.site % stride) {
+            last = crash_at(&ops, q, idx, false)?;
+        }
+        Ok(last)
     }
 }
